@@ -252,3 +252,35 @@ CHECKS["C05"] = {
     "level_text": "Complete enumeration of the stated program space; non-termination is a deterministic, replayable verdict.",
     "level_note": "Widening/narrowing soundness clauses (result contains the arguments) are checked at operator level by C03/C04/C08.",
 }
+
+CHECKS["C17"] = {
+    "level": "model_checking",
+    "technique": "exhaustive enumeration of small CFGs; explicit enumeration of all executions under a per-block visit bound; trace-set equality between the original and the transformed real cfg, plus well-formedness",
+    "design_ref": "DESIGN.md §2 C17",
+    "jobs": [{"bin": "c17_transforms", "deadline": {"quick": 400, "thorough": 2700}}],
+    "rule": ("all skeletons with n<=3 blocks whose last block is the exit (no successors): entry with predecessors, self loops, unreachable blocks, "
+             "blocks that cannot reach the exit; <=1 statement per block from a division-free alphabet of 11 (14 thorough) statements over x,y,z "
+             "with a function declaration (output x), plus all ordered two-statement blocks for n<=2; transforms on clones: cfg::simplify(), "
+             "dead_code_elimination, lower_safe_assertions (safe set from the interval checker), simplify+dce, dce+simplify. Oracle: the set of "
+             "traces (sequence of evaluated conditions with outcomes + final output values) of ALL executions from every initial state in the box "
+             "that complete the exit block with every block visited <=2 times must be EQUAL before and after; next/prev symmetric, entry and exit kept."),
+    "assumptions": ["no removed statement can fail (division-free alphabet)", "per-block visit bound is invariant under chain merges, so equality (not inclusion) is the right comparison"],
+    "level_text": "Complete enumeration of the stated program space; all executions within the visit bound are enumerated on both cfgs.",
+    "level_note": "Initial/havoc values in {-1,0,1} (quick) / {-2..2} (thorough); n<=3.",
+}
+
+CHECKS["C18"] = {
+    "level": "model_checking",
+    "technique": "exhaustive enumeration of small CFGs; non-interference test of every variable reported dead (all states x all perturbations x all continuations) and path-wise data-flow test of the assertion crawler facts",
+    "design_ref": "DESIGN.md §2 C18",
+    "jobs": [{"bin": "c17_transforms", "deadline": {"quick": 400, "thorough": 2700}}],
+    "rule": ("the C17 program space. Liveness (live_and_dead_analysis): for every block b processed by the analysis and every variable v not "
+             "live at the end of b, for every state in the box and every other value of v, the sets of continuation traces (conditions, assertion "
+             "outcomes, terminal event: exit with outputs / stuck / assertion failure / unreachable / bound) from the end of b must be equal. "
+             "Crawler (both only_data settings): for every block b and every CFG path from b to an assertion with each edge taken <=2 times the "
+             "assertion must be listed at b, and every variable whose value at b changes the value of a variable used by the assertion when the "
+             "path's statements are executed must be in the reported set."),
+    "assumptions": ["semantic (not syntactic) flow is demanded, so a reported set may legitimately be larger"],
+    "level_text": "Complete enumeration of the stated program space with exhaustive perturbation / path enumeration within the bounds.",
+    "level_note": "Intra-procedural crawler only; n<=3.",
+}
